@@ -88,6 +88,9 @@ def control(proc, what, arg=None, who='ext'):
         'live_before': not proc.has_terminated(),
         'state_before': proc.state.value,
         'paused_before': proc.paused,
+        'n_trace': len(w.trace.get(proc.pid, [])),
+        'seq_start': len(w.futs),
+        'begin': w.extra.setdefault('_begin', [0]).__setitem__(0, w.extra['_begin'][0] + 1) or w.extra['_begin'][0],
         'ret': None,
         'raised': None,
         '_fut': None,
@@ -120,6 +123,7 @@ def control(proc, what, arg=None, who='ext'):
         rec['_raised_exc'] = exc
     rec['state_after'] = proc.state.value
     rec['paused_after'] = proc.paused
+    rec['status_after'] = proc.status
     rec['seq'] = len(w.futs)
     w.futs.append(rec)
     return rec
@@ -289,6 +293,7 @@ class ProgBase(ContextMixin, Process):
             self.ctx[item[1]] = self.ctx.get(item[1], 0) + 1
         elif kind == 'status':
             self.set_status(item[1])
+            self._t('status', idx, value=item[1])
         elif kind == 'call':
             rec = control(self, item[1], item[2] if len(item) > 2 else None, who=f'self:{step_name(idx)}')
             self._t('call', idx, what=item[1], ret=rec['ret'], raised=rec['raised'], seq=rec['seq'])
@@ -300,7 +305,7 @@ class ProgBase(ContextMixin, Process):
                 world.cur().tr(pid, {'k': 'cb', 'tag': tag, 'cur': Process.current() is proc, 'state': proc.state.value})
                 if mode == 'raise':
                     exc = ProgError(tag)
-                    world.cur().extra.setdefault('cb_excs', {})[tag] = exc
+                    world.cur().extra.setdefault('cb_excs', {}).setdefault(tag, []).append(exc)
                     raise exc
 
             self.call_soon(callback)
